@@ -100,6 +100,12 @@ def check_case(case):
     return dict(nt=count >= 2 and nlinks >= 1, classes=classes)
 
 
+def json_key(case):
+    import json
+
+    return json.dumps(case, sort_keys=True)
+
+
 def signature(case):
     """Seed, call randgraph once, describe the result (used in this process and in fresh interpreters)."""
     from edgegraph.builder import randgraph
@@ -117,11 +123,12 @@ def signature(case):
         random.setstate(state)
 
 
-def check_fresh(case):
+def check_fresh(case, here=None):
     """The very FIRST randgraph call of a process (two separate fresh interpreters) against a later call here."""
     from eglib import fresh
 
-    here = signature(case)
+    if here is None:
+        here = signature(case)   # touches the GLOBAL random state: never call this concurrently from threads
     sigs = []
     for _ in range(2):
         r = fresh.run_jobs([dict(blob=None, flag=False, want=["c20"], case=case)])[0]
@@ -152,9 +159,13 @@ def extra_phase(tier, seed, deadline):
     cases = [{"count": 3 + (seed + k) % 9, "cls": k % 6, "conn": [None, 0.5, 1.0][k % 3], "ens": bool(k % 2), "seed": seed * 1000 + k} for k in range(n)]
     failures, nt, errors = {}, set(), []
 
+    # the in-process signatures are computed here, sequentially: they seed and restore the global `random` state,
+    # which the worker threads below (they only wait for subprocesses) must not do concurrently
+    here_sigs = {json_key(c): signature(c) for c in cases}
+
     def one(case):
         try:
-            check_fresh(case)
+            check_fresh(case, here_sigs[json_key(case)])
             return case, None
         except Violation as v:
             return case, v
